@@ -22,6 +22,16 @@ def run(ctx):
         raise vlib.Infra("harness replayed %d of %d cases" % (res["cases"], total))
     for m in vlib.read_ndjson(mm):
         ctx.violation(m["shape"], m["what"], m["case"], m.get("site", ""))
+    # direction (b): executions of the real resolver on random books far beyond the exhaustive bound,
+    # recorded (Init, Visit*, Exit) and validated by TLC against Trace_Resolver.tla
+    tr = os.path.join(ctx.scratch, "resolver_trace.ndjson")
+    mm2 = os.path.join(ctx.scratch, "resolver_trace_mm.ndjson")
+    nb = 400 if ctx.tier == "quick" else 6000
+    res2 = ctx.drv("resolver-trace", outfile=tr, args={"books": nb})
+    vlib.validate_traces(ctx, "Trace_Resolver.tla", "Trace_Resolver.cfg", tr, "resolver-trace-rejected", "resolver/resolver.go")
+    vlib.binding_selftest(ctx, "Trace_Resolver.tla", "Trace_Resolver.cfg", tr, [("amount-off-by-one", corrupt_amount), ("visit-dropped", drop_visit)])
+    ctx.add("evaluations", res2["runs"])
+    ctx.add("distinct_nontrivial", res2["nontrivial"])
     ctx.add("evaluations", res["runs"])
     ctx.add("distinct_nontrivial", res["nontrivial"])
     ctx.add("traces_validated_against_impl", res["cases"])
@@ -36,6 +46,24 @@ def run(ctx):
         exhaustive=True,
         extra_cov=dict(replay=res.get("extra", {}), spec_variant="repaired"),
         trusted=["harness/verifdrv/resolver.go (concretisation, forcing of the visiting order through insertion order, observed via VerifVisit)"])
+
+
+def corrupt_amount(tr):
+    for e in tr:
+        if e["ev"] == "Exit" and e["status"] == "ok":
+            for r in e["db"]:
+                if r[1]:
+                    r[1][0][1] += 1
+                    return tr
+    return None
+
+
+def drop_visit(tr):
+    for i, e in enumerate(tr):
+        if e["ev"] == "Visit" and tr[-1]["status"] == "ok":
+            del tr[i]
+            return tr
+    return None
 
 
 def replay(ctx, path):
